@@ -1,45 +1,932 @@
-//! C14 check (see /verif/DESIGN.md section 5 and /verif/mc/README-dev.md).
-use mclib::engine::{catch, finish, install_quiet_panic_hook, Ctx, Report, Tier};
-use serde_json::json;
+//! C14 — the type checker accepts exactly the well-formed programs (E1 + E3), and every
+//! accepted environment is closed (see /verif/DESIGN.md section 5, /verif/mc/README-dev.md).
+//!
+//! Process structure: the default invocation is a *supervisor* that runs the exploration
+//! in a child process (`--worker`) whose threads have a declared 16 MiB stack and write
+//! the case they are about to run into a per-thread journal. If the child dies (stack
+//! overflow, abort) or does not finish, the in-flight cases are re-run one by one in
+//! their own child; the ones that die or hang are violations ("worker-death" /
+//! "non-termination") and the exploration is repeated without them.
+mod ast_json;
+mod collide;
+mod mutate;
+mod subject;
+mod universe;
+mod wf;
 
-fn parse_args() -> (Tier, Option<String>, Vec<String>) {
-    let args: Vec<String> = std::env::args().collect();
-    let mut tier = match std::env::var("VERIF_TIER").as_deref() {
-        Ok("thorough") => Tier::Thorough,
-        _ => Tier::Quick,
+use collide::Preimage;
+use mclib::engine::{finish, install_quiet_panic_hook, Ctx, Report, Tier};
+use mclib::progs::{self, PActor, PTy, Prog};
+use serde_json::{json, Value};
+use std::collections::{BTreeSet, HashSet};
+use std::fs::File;
+use std::os::unix::fs::FileExt;
+use std::os::unix::process::ExitStatusExt;
+use std::path::PathBuf;
+use std::sync::atomic::{AtomicUsize, Ordering};
+use std::time::{Duration, Instant};
+use subject::Verdict;
+use universe::Universe;
+
+const STACK_BYTES: usize = 16 * 1024 * 1024;
+
+// ---------------------------------------------------------------------------------------
+// scope
+
+#[derive(Clone, Debug, PartialEq)]
+enum Kind {
+    /// text -> parse -> check_prog
+    Program,
+    /// `<defs> (<init args>)` -> check_init_args
+    InitArgs,
+    /// check_file; the variant says how the program is split over files
+    File(FileVariant),
+}
+
+#[derive(Clone, Copy, Debug, PartialEq)]
+enum FileVariant {
+    Single,
+    ImportTypes,
+    ImportService,
+    ImportServicePlusOwnMethod,
+    ImportServiceSameMethod,
+    ImportServiceCollidingMethod,
+}
+const FILE_VARIANTS: [FileVariant; 6] = [
+    FileVariant::Single,
+    FileVariant::ImportTypes,
+    FileVariant::ImportService,
+    FileVariant::ImportServicePlusOwnMethod,
+    FileVariant::ImportServiceSameMethod,
+    FileVariant::ImportServiceCollidingMethod,
+];
+impl FileVariant {
+    fn name(self) -> &'static str {
+        match self {
+            FileVariant::Single => "single-file",
+            FileVariant::ImportTypes => "import-types",
+            FileVariant::ImportService => "import-service",
+            FileVariant::ImportServicePlusOwnMethod => "import-service-plus-own-method",
+            FileVariant::ImportServiceSameMethod => "import-service-same-method",
+            FileVariant::ImportServiceCollidingMethod => "import-service-colliding-method",
+        }
+    }
+    fn from_name(s: &str) -> Option<FileVariant> {
+        FILE_VARIANTS.iter().copied().find(|v| v.name() == s)
+    }
+}
+impl Kind {
+    fn name(&self) -> String {
+        match self {
+            Kind::Program => "program".into(),
+            Kind::InitArgs => "init-args".into(),
+            Kind::File(v) => format!("file:{}", v.name()),
+        }
+    }
+    fn from_name(s: &str) -> Option<Kind> {
+        match s {
+            "program" => Some(Kind::Program),
+            "init-args" => Some(Kind::InitArgs),
+            _ => s.strip_prefix("file:").and_then(FileVariant::from_name).map(Kind::File),
+        }
+    }
+}
+
+struct Case {
+    kind: Kind,
+    family: &'static str,
+    fault: String,
+    prog: Prog,
+}
+
+const L_UNIVERSE: u64 = 0;
+const L_UNIVERSE3: u64 = 1;
+const L_WF: u64 = 2;
+const L_MUTANTS: u64 = 3;
+const L_INIT: u64 = 4;
+const L_FILES: u64 = 5;
+const LEVEL_NAMES: [&str; 6] = [
+    "universe",
+    "universe-3-definitions-reduced",
+    "well-formed-by-construction",
+    "single-fault-mutants",
+    "init-args",
+    "files-and-imports",
+];
+
+struct Scope {
+    pre: Preimage,
+    /// a name different from "a" with the hash of "a"
+    x: String,
+    uni: Universe,
+    uni3: Option<Universe>,
+    wf: Vec<Prog>,
+    /// (fault kind, program), distinct program texts, none equal to a program of `wf`
+    mutants: Vec<(String, Prog)>,
+    /// stride over `wf ++ mutants` for the init-args and file levels
+    list_stride: usize,
+    notes: Vec<String>,
+}
+
+impl Scope {
+    fn build(tier: Tier) -> Scope {
+        let pre = Preimage::new();
+        let x = pre.name_with_hash(refmodel::hash::idl_hash("a"), "a");
+        let uni = Universe::new(universe::rhs_set(&x), universe::actor_set(), 0, tier.pick(2, 3));
+        let uni3 = match tier {
+            Tier::Quick => Some(Universe::new(universe::rhs_reduced(), universe::actor_set(), 3, 3)),
+            Tier::Thorough => None,
+        };
+        let mut seen: HashSet<String> = HashSet::new();
+        let mut wf = vec![];
+        for p in progs::default_programs(100000) {
+            if seen.insert(p.to_did()) {
+                wf.push(p);
+            }
+        }
+        // mutants are generated in parallel (per U_P program) and merged in program order
+        let threads = std::thread::available_parallelism().map(|n| n.get()).unwrap_or(8);
+        let mut per: Vec<Vec<(String, Prog, String)>> = Vec::new();
+        per.resize_with(wf.len(), Vec::new);
+        std::thread::scope(|s| {
+            let handles: Vec<_> = (0..threads)
+                .map(|t| {
+                    let wf = &wf;
+                    let pre = &pre;
+                    s.spawn(move || {
+                        let mut out = vec![];
+                        let mut i = t;
+                        while i < wf.len() {
+                            let ms: Vec<(String, Prog, String)> = mutate::mutants(&wf[i], pre)
+                                .into_iter()
+                                .map(|(k, q)| {
+                                    let text = q.to_did();
+                                    (k, q, text)
+                                })
+                                .collect();
+                            out.push((i, ms));
+                            i += threads;
+                        }
+                        out
+                    })
+                })
+                .collect();
+            for h in handles {
+                for (i, ms) in h.join().expect("mutant generation") {
+                    per[i] = ms;
+                }
+            }
+        });
+        let mut mutants = vec![];
+        let mut produced = 0usize;
+        for ms in per {
+            for (kind, q, text) in ms {
+                produced += 1;
+                if seen.insert(text) {
+                    mutants.push((kind, q));
+                }
+            }
+        }
+        let notes = vec![
+            format!(
+                "universe: {} right-hand sides x {} names, {} actors (incl. none), definition lists of length <= {}: {} programs; colliding label pair (\"a\", \"{}\") with hash {}",
+                uni.rhs.len(),
+                universe::NAMES.len(),
+                uni.actors.len(),
+                uni.max_defs,
+                uni.total(),
+                x,
+                refmodel::hash::idl_hash(&x)
+            ),
+            format!("U_P: {} distinct programs; {} single-fault mutants produced, {} distinct and different from U_P", wf.len(), produced, mutants.len()),
+        ];
+        Scope { pre, x, uni, uni3, wf, mutants, list_stride: tier.pick(3, 1), notes }
+    }
+
+    fn listed(&self, i: usize) -> (&'static str, String, &Prog) {
+        if i < self.wf.len() {
+            ("U_P", "none".to_string(), &self.wf[i])
+        } else {
+            let (k, p) = &self.mutants[i - self.wf.len()];
+            ("mutant", k.clone(), p)
+        }
+    }
+    fn listed_len(&self) -> usize {
+        (self.wf.len() + self.mutants.len()).div_ceil(self.list_stride)
+    }
+
+    fn level_total(&self, level: u64) -> u64 {
+        match level {
+            L_UNIVERSE => self.uni.total(),
+            L_UNIVERSE3 => self.uni3.as_ref().map(|u| u.total()).unwrap_or(0),
+            L_WF => self.wf.len() as u64,
+            L_MUTANTS => self.mutants.len() as u64,
+            L_INIT => self.listed_len() as u64,
+            L_FILES => (self.listed_len() * FILE_VARIANTS.len()) as u64,
+            _ => 0,
+        }
+    }
+
+    fn case(&self, level: u64, index: u64) -> Case {
+        match level {
+            L_UNIVERSE => Case { kind: Kind::Program, family: "universe", fault: "n/a".into(), prog: self.uni.program(index) },
+            L_UNIVERSE3 => Case { kind: Kind::Program, family: "universe", fault: "n/a".into(), prog: self.uni3.as_ref().unwrap().program(index) },
+            L_WF => Case { kind: Kind::Program, family: "U_P", fault: "none".into(), prog: self.wf[index as usize].clone() },
+            L_MUTANTS => {
+                let (k, p) = &self.mutants[index as usize];
+                Case { kind: Kind::Program, family: "mutant", fault: k.clone(), prog: p.clone() }
+            }
+            L_INIT => {
+                let (family, fault, p) = self.listed(index as usize * self.list_stride);
+                Case { kind: Kind::InitArgs, family, fault, prog: p.clone() }
+            }
+            L_FILES => {
+                let n = FILE_VARIANTS.len() as u64;
+                let (family, fault, p) = self.listed((index / n) as usize * self.list_stride);
+                Case { kind: Kind::File(FILE_VARIANTS[(index % n) as usize]), family, fault, prog: p.clone() }
+            }
+            _ => panic!("no such level"),
+        }
+    }
+}
+
+// ---------------------------------------------------------------------------------------
+// one observation: reference verdict, subject verdict, findings
+
+struct Worker {
+    journal: Option<File>,
+    dir: PathBuf,
+    shrunk: usize,
+}
+
+static WORKER_SEQ: AtomicUsize = AtomicUsize::new(0);
+
+/// scratch files (check_file inputs, journals) live on tmpfs when there is one
+fn scratch_root() -> PathBuf {
+    let shm = PathBuf::from("/dev/shm");
+    if shm.is_dir() {
+        shm
+    } else {
+        std::env::temp_dir()
+    }
+}
+
+impl Worker {
+    fn new(journal_dir: Option<&str>) -> Worker {
+        let n = WORKER_SEQ.fetch_add(1, Ordering::SeqCst);
+        let dir = scratch_root().join(format!("c14-files-{}-{}", std::process::id(), n));
+        let _ = std::fs::create_dir_all(&dir);
+        let journal = journal_dir.map(|d| File::create(format!("{d}/t{n}")).expect("journal file"));
+        Worker { journal, dir, shrunk: 0 }
+    }
+    fn note(&self, level: u64, index: u64) {
+        if let Some(j) = &self.journal {
+            let mut b = [0u8; 16];
+            b[..8].copy_from_slice(&level.to_le_bytes());
+            b[8..].copy_from_slice(&index.to_le_bytes());
+            let _ = j.write_all_at(&b, 0);
+        }
+    }
+}
+impl Drop for Worker {
+    fn drop(&mut self) {
+        let _ = std::fs::remove_dir_all(&self.dir);
+    }
+}
+
+#[derive(Clone)]
+struct Finding {
+    /// accepts-ill-formed | rejects-well-formed | front-end-panic | panic-after-accept | error-after-accept
+    clause: &'static str,
+    /// R8 reasons / verdict class / downstream operation
+    detail: String,
+    msg: String,
+}
+
+struct Obs {
+    /// what was given to the subject
+    text: String,
+    reasons: wf::Reasons,
+    /// the reference verdict for this kind of case (R8, plus the import rules for files)
+    expect_accept: bool,
+    expect_why: String,
+    verdict: Verdict,
+    findings: Vec<Finding>,
+    /// the case does not apply to this program (e.g. import-service without an actor to split off)
+    skipped: bool,
+}
+
+fn panic_location(msg: &str) -> &str {
+    msg.rsplit(" @ ").next().unwrap_or("")
+}
+
+fn actor_only(p: &Prog) -> String {
+    Prog { defs: vec![], actor: p.actor.clone(), actor_name: p.actor_name.clone() }.to_did()
+}
+fn defs_only(p: &Prog) -> String {
+    Prog { defs: p.defs.clone(), actor: None, actor_name: None }.to_did()
+}
+fn unit_method_actor(name: &str) -> String {
+    Prog {
+        defs: vec![],
+        actor: Some(PActor::Service(PTy::Service(vec![(name.to_string(), PTy::func(vec![], vec![], vec![]))]))),
+        actor_name: None,
+    }
+    .to_did()
+}
+
+/// first method name of the program's actor when the actor is a service (not a constructor),
+/// following names through the definitions
+fn first_method(p: &Prog) -> Option<String> {
+    let mut t = match &p.actor {
+        Some(PActor::Service(t)) => t,
+        _ => return None,
     };
-    let mut replay = None;
-    let mut rest = vec![];
+    for _ in 0..=p.defs.len() {
+        match t {
+            PTy::Service(ms) => return ms.first().map(|m| m.0.clone()),
+            PTy::Var(v) => t = &p.defs.iter().find(|d| d.0 == *v)?.1,
+            _ => return None,
+        }
+    }
+    None
+}
+
+/// every method name of every service type of the program is an identifier
+fn motoko_applicable(p: &Prog) -> bool {
+    mutate::nodes(p).iter().all(|t| match t {
+        PTy::Service(ms) => ms.iter().all(|m| wf::is_identifier(&m.0)),
+        _ => true,
+    })
+}
+
+fn observe(sc: &Scope, kind: &Kind, prog: &Prog, w: &mut Worker, deep: bool) -> Obs {
+    let reasons = wf::reasons(prog);
+    let mut findings = vec![];
+    let mut skipped = false;
+    let text;
+    let mut expect_accept = reasons.is_empty();
+    let mut expect_why = wf::reasons_text(&reasons);
+    let verdict;
+    match kind {
+        Kind::Program => {
+            text = prog.to_did();
+            let (v, acc) = subject::front(&text);
+            if let (true, Some(acc)) = (deep, &acc) {
+                let model = if reasons.is_empty() { Some(prog) } else { None };
+                for pb in subject::downstream(&text, acc, model, None, motoko_applicable(prog)) {
+                    findings.push(Finding { clause: pb.clause, detail: pb.op, msg: pb.msg });
+                }
+            }
+            verdict = v;
+        }
+        Kind::InitArgs => {
+            // the definitions of the program, and as argument list the constructor's
+            // arguments (or the first definition's name); R8 judges the same definitions
+            // with a constructor of an empty service
+            let args = match &prog.actor {
+                Some(PActor::Class(a, _)) => a.clone(),
+                _ => prog.defs.first().map(|d| vec![(None, PTy::var(&d.0))]).unwrap_or_default(),
+            };
+            let q = Prog { defs: prog.defs.clone(), actor: Some(PActor::Class(args, PTy::Service(vec![]))), actor_name: None };
+            let r = wf::reasons(&q);
+            expect_accept = r.is_empty();
+            expect_why = wf::reasons_text(&r);
+            let did = q.to_did();
+            let body = did.trim_end();
+            let cut = body.rfind("service : ").expect("printer format");
+            let tail = &body[cut + "service : ".len()..];
+            let tail = tail.strip_suffix(" -> {  }").expect("printer format");
+            text = format!("{}{}", &body[..cut], tail);
+            verdict = subject::front_init_args(&text);
+        }
+        Kind::File(variant) => {
+            let main = w.dir.join("main.did");
+            let imp = w.dir.join("imp.did");
+            let imported_is_class = matches!(prog.actor, Some(PActor::Class(..)));
+            let mut import_service_expect = |own_clash: bool| {
+                if prog.actor.is_none() {
+                    expect_accept = false;
+                    expect_why = "imported file has no main service".into();
+                } else if imported_is_class {
+                    expect_accept = false;
+                    expect_why = "imported main service is a constructor".into();
+                } else if own_clash && reasons.is_empty() {
+                    expect_accept = false;
+                    expect_why = "imported method name equals a method name of the importing file".into();
+                }
+            };
+            let (main_text, imp_text): (String, Option<String>) = match variant {
+                FileVariant::Single => (prog.to_did(), None),
+                FileVariant::ImportTypes => {
+                    if prog.defs.is_empty() {
+                        skipped = true;
+                    }
+                    (format!("import \"imp.did\";\n{}", actor_only(prog)), Some(defs_only(prog)))
+                }
+                FileVariant::ImportService => {
+                    import_service_expect(false);
+                    ("import service \"imp.did\";\n".to_string(), Some(prog.to_did()))
+                }
+                FileVariant::ImportServicePlusOwnMethod => {
+                    import_service_expect(false);
+                    (format!("import service \"imp.did\";\n{}", unit_method_actor("zq_main")), Some(prog.to_did()))
+                }
+                FileVariant::ImportServiceSameMethod => match first_method(prog) {
+                    Some(m) => {
+                        import_service_expect(true);
+                        (format!("import service \"imp.did\";\n{}", unit_method_actor(&m)), Some(prog.to_did()))
+                    }
+                    None => {
+                        skipped = true;
+                        (String::new(), None)
+                    }
+                },
+                FileVariant::ImportServiceCollidingMethod => match first_method(prog) {
+                    Some(m) => {
+                        import_service_expect(false);
+                        let partner = sc.pre.name_with_hash(refmodel::hash::idl_hash(&m), &m);
+                        (format!("import service \"imp.did\";\n{}", unit_method_actor(&partner)), Some(prog.to_did()))
+                    }
+                    None => {
+                        skipped = true;
+                        (String::new(), None)
+                    }
+                },
+            };
+            text = match &imp_text {
+                Some(i) => format!("// main.did\n{main_text}// imp.did\n{i}"),
+                None => main_text.clone(),
+            };
+            if skipped {
+                verdict = Verdict::Accepted;
+            } else {
+                std::fs::write(&main, &main_text).expect("write main.did");
+                match &imp_text {
+                    Some(i) => std::fs::write(&imp, i).expect("write imp.did"),
+                    None => {
+                        let _ = std::fs::remove_file(&imp);
+                    }
+                }
+                let (v, acc) = subject::front_file(&main);
+                if let (true, Some((acc, merged))) = (deep, &acc) {
+                    // (the importing file adds only identifier method names)
+                    for pb in subject::downstream(&main_text, acc, None, Some(merged), motoko_applicable(prog)) {
+                        findings.push(Finding { clause: pb.clause, detail: pb.op, msg: pb.msg });
+                    }
+                }
+                verdict = v;
+            }
+        }
+    }
+    if !skipped {
+        let why = || if expect_why == "well-formed" { "none".to_string() } else { expect_why.clone() };
+        match &verdict {
+            Verdict::Panic(m) => findings.insert(0, Finding { clause: "front-end-panic", detail: panic_location(m).to_string(), msg: m.clone() }),
+            Verdict::Accepted if !expect_accept => findings.insert(
+                0,
+                Finding { clause: "accepts-ill-formed", detail: why(), msg: format!("accepted, but the program is ill-formed: {expect_why}") },
+            ),
+            Verdict::Accepted => {}
+            v if expect_accept => findings.insert(
+                0,
+                Finding { clause: "rejects-well-formed", detail: v.class().to_string(), msg: format!("well-formed program rejected: {}", v.text()) },
+            ),
+            _ => {}
+        }
+    }
+    Obs { text, reasons, expect_accept, expect_why, verdict, findings, skipped }
+}
+
+/// does the observation of a simplified program still show the finding `f` of the original?
+fn still_shows(f: &Finding, orig_reasons: &wf::Reasons, o: &Obs) -> bool {
+    o.findings.iter().any(|g| {
+        g.clause == f.clause
+            && match f.clause {
+                "accepts-ill-formed" => o.reasons.is_subset(orig_reasons) || o.reasons.len() <= 1,
+                "rejects-well-formed" => g.detail == f.detail,
+                "front-end-panic" => g.detail == f.detail,
+                _ => g.detail == f.detail && panic_location(&g.msg) == panic_location(&f.msg),
+            }
+    })
+}
+
+const MAX_SHRINKS_PER_THREAD: usize = 1500;
+
+fn check_case(sc: &Scope, case: &Case, w: &mut Worker, rep: &mut Report) {
+    let o = observe(sc, &case.kind, &case.prog, w, true);
+    if o.skipped {
+        rep.count("cases-not-applicable", 1);
+        return;
+    }
+    rep.evaluations += 1;
+    rep.transitions += 1;
+    rep.traces_validated += 1;
+    if case.kind == Kind::Program {
+        rep.states += 1;
+    }
+    let accepted = o.verdict.accepted();
+    let single_fault = !o.expect_accept && (case.family == "mutant" || o.reasons.len() == 1);
+    if accepted || single_fault {
+        rep.nontrivial += 1;
+    }
+    if accepted {
+        rep.count("accepted", 1);
+    }
+    let kind = case.kind.name();
+    match case.family {
+        "universe" => {
+            rep.outcome(&format!("universe:{}-reasons:{}", o.reasons.len().min(3), o.verdict.class()));
+            if o.reasons.len() == 1 {
+                rep.outcome(&format!("universe:{}:{}", o.expect_why, o.verdict.class()));
+            }
+        }
+        _ => {
+            let fault = case.fault.trim_end_matches(|c: char| c.is_ascii_digit() || c == '-');
+            let fault = if case.fault.contains("chain") || case.fault.contains("cycle") { fault } else { &case.fault };
+            rep.outcome(&format!("{kind}:{}:{}:{}", fault, if o.expect_accept { "wf" } else { "ill" }, o.verdict.class()));
+            if !o.expect_accept {
+                for r in o.expect_why.split('+') {
+                    rep.count(&format!("mutants-ill-formed-by:{r}"), 1);
+                }
+            }
+        }
+    }
+    if rep.samples.len() < 2 || (rep.samples.len() < 4 && case.family == "mutant") {
+        rep.sample(json!({"kind": kind, "family": case.family, "fault": case.fault, "program": o.text, "r8": o.expect_why, "subject": o.verdict.text()}));
+    }
+    // one violation per distinct (clause, detail) of this case
+    let mut done: BTreeSet<(String, String)> = BTreeSet::new();
+    for f in &o.findings {
+        if !done.insert((f.clause.to_string(), f.detail.clone())) {
+            continue;
+        }
+        if w.shrunk >= MAX_SHRINKS_PER_THREAD {
+            // still counted; the kept (shrunk) cases already describe these causes
+            rep.violation_count += 1;
+            rep.count("violating-cases-not-shrunk", 1);
+            continue;
+        }
+        w.shrunk += 1;
+        let deep = !matches!(f.clause, "accepts-ill-formed" | "rejects-well-formed" | "front-end-panic");
+        let min = {
+            let mut pred = |q: &Prog| {
+                let oq = observe(sc, &case.kind, q, w, deep);
+                !oq.skipped && still_shows(f, &o.reasons, &oq)
+            };
+            mutate::shrink(&case.prog, &mut pred)
+        };
+        // re-check the minimal case once more (same input twice => same observation)
+        let om = observe(sc, &case.kind, &min, w, deep);
+        let Some(g) = om.findings.iter().find(|g| g.clause == f.clause && (f.clause == "accepts-ill-formed" || g.detail == f.detail)) else {
+            rep.notes.push(format!("unstable observation (not reported): {} on {}", f.clause, o.text.replace('\n', " ")));
+            continue;
+        };
+        let key = format!("{}|{}|{}|{}", g.clause, kind, g.detail, om.text.replace('\n', " "));
+        let msg = format!("{}; R8: {}; subject: {}; found in family {} (fault {}) as: {}", g.msg, om.expect_why, om.verdict.text(), case.family, case.fault, o.text.replace('\n', " "));
+        rep.violation(
+            &key,
+            msg,
+            json!({
+                "kind": kind,
+                "clause": g.clause,
+                "detail": g.detail,
+                "program": om.text,
+                "ast": ast_json::prog_json(&min),
+                "r8": om.expect_why,
+                "found_in": {"family": case.family, "fault": case.fault, "program": o.text},
+            }),
+        );
+    }
+}
+
+// ---------------------------------------------------------------------------------------
+// worker (the exploration proper)
+
+#[derive(Clone)]
+struct Dead {
+    level: u64,
+    index: u64,
+    how: String,
+}
+
+fn read_dead(path: &Option<String>) -> Vec<Dead> {
+    let Some(p) = path else { return vec![] };
+    let Ok(s) = std::fs::read_to_string(p) else { return vec![] };
+    let v: Value = serde_json::from_str(&s).unwrap_or(Value::Null);
+    v.as_array()
+        .map(|a| {
+            a.iter()
+                .map(|d| Dead { level: d["level"].as_u64().unwrap(), index: d["index"].as_u64().unwrap(), how: d["how"].as_str().unwrap_or("").to_string() })
+                .collect()
+        })
+        .unwrap_or_default()
+}
+
+fn case_json(c: &Case) -> Value {
+    json!({"kind": c.kind.name(), "family": c.family, "fault": c.fault, "program": c.prog.to_did(), "ast": ast_json::prog_json(&c.prog)})
+}
+
+fn run_worker(tier: Tier, journal: Option<String>, dead_file: Option<String>) -> i32 {
+    let ctx = Ctx::new("C14", tier, tier.pick(100, 1100));
+    let t_build = Instant::now();
+    let sc = Scope::build(tier);
+    let build_s = t_build.elapsed().as_secs_f64();
+    let dead = read_dead(&dead_file);
+    let dead_set: HashSet<(u64, u64)> = dead.iter().map(|d| (d.level, d.index)).collect();
+    let mut rep = Report::new();
+    rep.notes.push(format!("scope built in {build_s:.1} s"));
+    for d in &dead {
+        let c = sc.case(d.level, d.index);
+        let clause = if d.how.starts_with("non-termination") { "non-termination" } else { "worker-death" };
+        rep.violation(
+            &format!("{clause}|{}|{}", c.kind.name(), c.prog.to_did().replace('\n', " ")),
+            format!("{}: the process running this case {} (family {}, fault {})", clause, d.how, c.family, c.fault),
+            case_json(&c),
+        );
+    }
+    let levels: Vec<(u64, u64)> = vec![(L_WF, 16), (L_MUTANTS, 64), (L_INIT, 64), (L_FILES, 64), (L_UNIVERSE3, 1024), (L_UNIVERSE, 1024)];
+    for (level, chunk) in levels {
+        let total = sc.level_total(level);
+        if total == 0 {
+            continue;
+        }
+        let t0 = Instant::now();
+        let r = ctx.par_range(
+            LEVEL_NAMES[level as usize],
+            total,
+            chunk,
+            || Worker::new(journal.as_deref()),
+            |w, i, rep| {
+                if !dead_set.is_empty() && dead_set.contains(&(level, i)) {
+                    return;
+                }
+                w.note(level, i);
+                let c = sc.case(level, i);
+                check_case(&sc, &c, w, rep);
+            },
+        );
+        rep.merge(r);
+        rep.notes.push(format!("level {}: {} cases in {:.1} s", LEVEL_NAMES[level as usize], total, t0.elapsed().as_secs_f64()));
+    }
+    rep.notes.extend(sc.notes.clone());
+    // replay files of earlier runs would otherwise survive next to the new ones
+    if let Ok(rd) = std::fs::read_dir("/verif/replays/C14") {
+        for e in rd.flatten() {
+            if e.path().extension().map(|x| x == "json").unwrap_or(false) {
+                let _ = std::fs::remove_file(e.path());
+            }
+        }
+    }
+    let accepted = rep.counters.get("accepted").copied().unwrap_or(0);
+    finish(
+        &ctx,
+        rep,
+        "cases = Candid programs on a neutral AST, printed by the trusted printer and given to the real front end. \
+         (i) universe: ALL definition lists of length <= 2 (quick; plus all lists of length 3 over a reduced right-hand-side set) / <= 3 (thorough) over names {a,b,c} x the listed right-hand sides, crossed with the listed actors; \
+         (ii) U_P = mclib::progs::default_programs (well-formed by construction); \
+         (iii) every single-fault mutant of every U_P program (fault alphabet: undefined name, duplicate definition, alias cycle of length 1-4 through a definition / fresh / referenced from each leaf, duplicate field id, name next to its own number, hash-colliding name, non-function method directly and through alias chains of 0-3 hops, duplicate method, oneway with result, second annotation, duplicate argument/result/init-argument name, non-service actor through alias chains of 0-3 hops, undefined actor) at every position; \
+         (iv) the U_P programs and mutants as init-args programs (check_init_args) and as files (check_file: single file, types imported, service imported, with own / same / hash-colliding method in the importing file). \
+         Oracle: accepted <=> R8 well-formed (c14/src/wf.rs); for every accepted program trace_type / rec_find_type / as_func / as_service / self-subtype / chase_type / chase_actor / chase_def_use / encode+decode of two small values per definition / the four binding generators must return without panicking (and without an error where a closed environment guarantees success). \
+         states = distinct programs, transitions = front-end calls, traces = verdict comparisons. Non-trivial = accepted programs + programs rejected by R8 for a single fault (mutants; universe programs with exactly one reason kind).",
+        &[
+            "R8 (c14/src/wf.rs) is a correct reading of spec/Candid.md sections Services, Functions, Records, Variants, Type Definitions, Interfaces, Imports",
+            "mclib::progs printer output denotes the AST it prints (cross-checked by ./check --setup selftest for well-formed programs)",
+            "argument names are compared as written (not by hash) and per argument list, as the grammar shorthand '<name> : <datatype>' is per <argtype> of one <tuptype>",
+            "method names are compared as strings (the spec does not hash method names)",
+        ],
+        json!({"accepted_programs": accepted, "stack_bytes_per_thread": STACK_BYTES}),
+    )
+}
+
+// ---------------------------------------------------------------------------------------
+// supervisor
+
+enum ChildEnd {
+    Exit(i32),
+    Signal(i32),
+    Timeout,
+}
+
+fn run_child(args: &[String], timeout: Duration, quiet: bool) -> ChildEnd {
+    let exe = std::env::current_exe().expect("current_exe");
+    let mut cmd = std::process::Command::new(exe);
+    cmd.args(args).env("RUST_MIN_STACK", STACK_BYTES.to_string());
+    if quiet {
+        cmd.stdout(std::process::Stdio::null()).stderr(std::process::Stdio::null());
+    }
+    let mut child = cmd.spawn().expect("spawn child");
+    let start = Instant::now();
+    loop {
+        match child.try_wait().expect("wait") {
+            Some(st) => {
+                return match (st.code(), st.signal()) {
+                    (Some(c), _) => ChildEnd::Exit(c),
+                    (None, Some(s)) => ChildEnd::Signal(s),
+                    _ => ChildEnd::Signal(0),
+                }
+            }
+            None => {
+                if start.elapsed() > timeout {
+                    let _ = child.kill();
+                    let _ = child.wait();
+                    return ChildEnd::Timeout;
+                }
+                std::thread::sleep(Duration::from_millis(if quiet { 5 } else { 100 }));
+            }
+        }
+    }
+}
+
+fn supervise(tier: Tier) -> i32 {
+    let base = scratch_root().join(format!("c14-supervisor-{}", std::process::id()));
+    let jdir = base.join("journal");
+    let dead_file = base.join("dead.json");
+    let mut dead: Vec<Dead> = vec![];
+    let mut scope: Option<Scope> = None;
+    let cap = Duration::from_secs(tier.pick(100, 1100) + 240);
+    let mut code = 2;
+    for _attempt in 0..6 {
+        let _ = std::fs::remove_dir_all(&jdir);
+        std::fs::create_dir_all(&jdir).expect("journal dir");
+        let dj: Vec<Value> = dead.iter().map(|d| json!({"level": d.level, "index": d.index, "how": d.how})).collect();
+        std::fs::write(&dead_file, serde_json::to_string(&dj).unwrap()).expect("dead file");
+        let args: Vec<String> = vec![
+            "--tier".into(),
+            tier.name().into(),
+            "--worker".into(),
+            "--journal".into(),
+            jdir.to_string_lossy().into_owned(),
+            "--dead".into(),
+            dead_file.to_string_lossy().into_owned(),
+        ];
+        let end = run_child(&args, cap, false);
+        let what = match end {
+            ChildEnd::Exit(c) => {
+                code = c;
+                break;
+            }
+            ChildEnd::Signal(s) => format!("died with signal {s}"),
+            ChildEnd::Timeout => format!("did not finish within {} s", cap.as_secs()),
+        };
+        eprintln!("C14 supervisor: the exploration process {what}; probing the cases that were in flight");
+        let sc = scope.get_or_insert_with(|| Scope::build(tier));
+        let mut inflight: BTreeSet<(u64, u64)> = BTreeSet::new();
+        if let Ok(rd) = std::fs::read_dir(&jdir) {
+            for e in rd.flatten() {
+                if let Ok(b) = std::fs::read(e.path()) {
+                    if b.len() == 16 {
+                        inflight.insert((u64::from_le_bytes(b[..8].try_into().unwrap()), u64::from_le_bytes(b[8..].try_into().unwrap())));
+                    }
+                }
+            }
+        }
+        let mut new_dead = 0;
+        for (level, index) in inflight {
+            if dead.iter().any(|d| d.level == level && d.index == index) {
+                continue;
+            }
+            let c = sc.case(level, index);
+            let f = base.join("probe.json");
+            std::fs::write(&f, serde_json::to_string(&json!({"case": case_json(&c)})).unwrap()).expect("probe file");
+            let how = match run_child(&["--replay-inner".into(), f.to_string_lossy().into_owned()], Duration::from_secs(60), true) {
+                ChildEnd::Exit(_) => continue,
+                ChildEnd::Signal(s) => format!("died with signal {s}"),
+                ChildEnd::Timeout => "non-termination: did not finish within 60 s".to_string(),
+            };
+            eprintln!("C14 supervisor: case {}#{} {}", LEVEL_NAMES[level as usize], index, how);
+            dead.push(Dead { level, index, how });
+            new_dead += 1;
+        }
+        if new_dead == 0 {
+            eprintln!("C14 supervisor: no single in-flight case reproduces the failure: machinery failure");
+            code = 2;
+            break;
+        }
+    }
+    let _ = std::fs::remove_dir_all(&base);
+    code
+}
+
+// ---------------------------------------------------------------------------------------
+// replay
+
+fn replay_inner(path: &str) -> i32 {
+    let s = std::fs::read_to_string(path).expect("replay file");
+    let v: Value = serde_json::from_str(&s).expect("json");
+    let case = &v["case"];
+    let kind = Kind::from_name(case["kind"].as_str().unwrap_or("program")).expect("kind");
+    let prog = ast_json::prog_from(&case["ast"]).expect("ast");
+    // only the file variants with a colliding method need the search table
+    let sc = Scope { pre: Preimage::new(), x: String::new(), uni: Universe::new(vec![], vec![None], 0, 0), uni3: None, wf: vec![], mutants: vec![], list_stride: 1, notes: vec![] };
+    let _ = &sc.x;
+    let mut w = Worker::new(None);
+    let o = observe(&sc, &kind, &prog, &mut w, true);
+    println!("program ({}):\n{}", kind.name(), o.text);
+    println!("R8: {}   expected: {}", o.expect_why, if o.expect_accept { "accept" } else { "reject" });
+    println!("subject: {}", o.verdict.text());
+    let want = case["clause"].as_str();
+    let mut n = 0;
+    for f in &o.findings {
+        if want.is_none() || want == Some(f.clause) || n == 0 {
+            println!("REPRODUCED {}|{}|{} :: {}", f.clause, kind.name(), f.detail, f.msg);
+            n += 1;
+        }
+    }
+    if n == 0 {
+        println!("not reproduced: subject and reference agree on this case");
+        0
+    } else {
+        1
+    }
+}
+
+fn replay(path: &str) -> i32 {
+    match run_child(&["--replay-inner".into(), path.to_string()], Duration::from_secs(120), false) {
+        ChildEnd::Exit(c) => c,
+        ChildEnd::Signal(s) => {
+            println!("REPRODUCED worker-death :: the process running this case died with signal {s}");
+            1
+        }
+        ChildEnd::Timeout => {
+            println!("REPRODUCED non-termination :: the process running this case did not finish within 120 s");
+            1
+        }
+    }
+}
+
+// ---------------------------------------------------------------------------------------
+
+struct Args {
+    tier: Tier,
+    replay: Option<String>,
+    replay_inner: Option<String>,
+    worker: bool,
+    in_process: bool,
+    journal: Option<String>,
+    dead: Option<String>,
+}
+
+fn parse_args() -> Args {
+    let args: Vec<String> = std::env::args().collect();
+    let mut a = Args {
+        tier: match std::env::var("VERIF_TIER").as_deref() {
+            Ok("thorough") => Tier::Thorough,
+            _ => Tier::Quick,
+        },
+        replay: None,
+        replay_inner: None,
+        worker: false,
+        in_process: false,
+        journal: None,
+        dead: None,
+    };
     let mut i = 1;
     while i < args.len() {
         match args[i].as_str() {
             "--tier" => {
                 i += 1;
-                tier = if args.get(i).map(|s| s.as_str()) == Some("thorough") { Tier::Thorough } else { Tier::Quick };
+                a.tier = if args.get(i).map(|s| s.as_str()) == Some("thorough") { Tier::Thorough } else { Tier::Quick };
             }
             "--replay" => {
                 i += 1;
-                replay = args.get(i).cloned();
+                a.replay = args.get(i).cloned();
             }
-            o => rest.push(o.to_string()),
+            "--replay-inner" => {
+                i += 1;
+                a.replay_inner = args.get(i).cloned();
+            }
+            "--journal" => {
+                i += 1;
+                a.journal = args.get(i).cloned();
+            }
+            "--dead" => {
+                i += 1;
+                a.dead = args.get(i).cloned();
+            }
+            "--worker" => a.worker = true,
+            "--in-process" => a.in_process = true,
+            _ => {}
         }
         i += 1;
     }
-    (tier, replay, rest)
+    a
 }
 
 fn main() {
+    // declared stack of every thread spawned from here on (read once by std at first spawn)
+    std::env::set_var("RUST_MIN_STACK", STACK_BYTES.to_string());
     install_quiet_panic_hook();
-    let (tier, replay, _rest) = parse_args();
-    if let Some(path) = replay {
-        let _ = path;
-        eprintln!("replay not implemented yet");
-        std::process::exit(2);
-    }
-    let ctx = Ctx::new("C14", tier, tier.pick(120, 1200));
-    let mut rep = Report::new();
-    let _ = catch(|| ());
-    rep.sample(json!("skeleton"));
-    let code = finish(&ctx, rep, "skeleton", &[], json!({}));
+    let a = parse_args();
+    let code = if let Some(p) = a.replay_inner {
+        // the main thread's stack is not ours to declare: run on a thread
+        std::thread::Builder::new().stack_size(STACK_BYTES).spawn(move || replay_inner(&p)).expect("spawn").join().unwrap_or(2)
+    } else if let Some(p) = a.replay {
+        replay(&p)
+    } else if a.worker || a.in_process {
+        run_worker(a.tier, a.journal, a.dead)
+    } else {
+        supervise(a.tier)
+    };
     std::process::exit(code);
 }
